@@ -1,4 +1,5 @@
 //! Shared generators (proptest strategies).
+pub mod nesting;
 pub mod soup;
 pub mod util;
 pub mod paths;
